@@ -23,7 +23,7 @@ EXHAUSTIVE_SUBDOMAINS = ["DF 0..31 x TC 0..31 x subtype 0..7 x {zero, ones, rand
 ASSUMPTIONS = ["shape predicates and guard domains are transcribed from the docstrings / error messages of the functions",
                "low-level helpers without a documented domain (e.g. *_with_ref, oe_flag, commb field decoders) are judged for "
                "exception type and shape only"]
-REQUIRED = ["reference_aimed_at_solution_midpoints", "long_frames", "short_frames", "tell", "tell_on_ascii_only_stdout", "routing", "guards", "matrix_df17", "matrix_other_df"]
+REQUIRED = ["reference_aimed_at_solution_midpoints", "long_frames", "short_frames", "tell", "tell_on_ascii_only_stdout", "tell_without_standard_output", "routing", "guards", "matrix_df17", "matrix_other_df"]
 
 # functions that are known to raise ValueError/IndexError on 14-digit frames (empty MB/ME slice); see KNOWN_FINDINGS
 SHORT_FRAME_FUNCS = None  # filled lazily: every commb/adsb function that slices bits beyond 56
@@ -296,6 +296,16 @@ def m_frames(ctx, case):
             r = call(pms.tell, hx)
         ctx.ev()
         ctx.hit("tell_on_ascii_only_stdout")
+        if k % 4 == 0:
+            # ... and in a process that has NO standard output at all (pythonw, a service, an embedded interpreter: sys.stdout is
+            # None and print() is a documented no-op)
+            with contextlib.redirect_stdout(None):
+                rn = call(pms.tell, hx)
+            ctx.ev()
+            if (rn[0] == "exc" and rn[1] != "RuntimeError" and classify_exc("tell", f, rn).startswith("non-Runtime")) or (rn[0] != r[0]):
+                ctx.violation("tell-raises-%s-without-a-standard-output" % (rn[1] if rn[0] == "exc" else "nothing"), frame=hx, observed=rn[1:],
+                              with_a_stream=r[:2])
+            ctx.hit("tell_without_standard_output")
         if r[0] == "exc" and r[1] != "RuntimeError":
             key = classify_exc("tell", f, r)
             if key.startswith("non-Runtime"):
